@@ -82,6 +82,7 @@ class Struct:
         self.requires = None
         self.inline_in = None   # anonymous bits are rendered inside their parent
         self.fixed_units = None  # total size when statically known (in own units), else None
+        self.default_byte_order = None   # `[$default byte_order: ..]` inside the type, or None
 
     def field(self, name):
         for f in self.fields:
@@ -179,6 +180,8 @@ def struct_text(s):
     if s.params:
         ps = "(%s)" % ", ".join("%s: UInt:%d" % (n, b) for n, _k, b in s.params)
     out = ["%s %s%s:" % (head, s.name, ps)]
+    if s.default_byte_order is not None:
+        out.append('  [$default byte_order: "%s"]' % s.default_byte_order)
     if s.requires is not None:
         out.append("  [requires: %s]" % etext(s.requires))
     for f in s.fields:
@@ -378,8 +381,136 @@ def _gen_inner(r, m, names):
         if ints:
             ints[0].requires = ("<", ("this",), ("n", r.choice([10, 100, 200])))
             m.features["requires_field"] += 1
+    _maybe_struct_default(r, m, s)
     m.structs.append(s)
     m.features["inner_struct"] += 1
+    return s
+
+
+def _maybe_struct_default(r, m, s, p=0.35):
+    """`[$default byte_order: ..]` inside a struct: overrides the module default for the fields of
+    this type only (language-reference: `$default` applies to the scope it is written in); the
+    types that follow fall back to the module default."""
+    if r.random() < p:
+        s.default_byte_order = r.choice(["LittleEndian", "BigEndian"])
+        m.features["struct_default_byte_order"] += 1
+        if s.default_byte_order != m.byte_order:
+            m.features["struct_default_differs_from_module"] += 1
+
+
+def effective_byte_order(m_default, s, f):
+    """Documented effective byte order of field `f` of struct `s`: its own attribute, else the
+    `$default` of the enclosing type, else the module's `$default`."""
+    return f.byte_order or s.default_byte_order or m_default
+
+
+# ---------------------------------------------------------------- full-width arithmetic
+I64 = (-(1 << 63), (1 << 63) - 1)
+U64 = (0, (1 << 64) - 1)
+
+
+def _fits64(lo, hi):
+    return (lo >= I64[0] and hi <= I64[1]) or (lo >= U64[0] and hi <= U64[1])
+
+
+def expr_range(e, ranges):
+    """Interval of an integer expression tuple over `ranges` ({field name: (lo, hi)}), or None if
+    some node would be refused by the front end's 64-bit rule (every operation's result and
+    operands must fit in one 64-bit C++ type — doc/language-reference.md "integer expressions")."""
+    k = e[0]
+    if k == "n":
+        return (e[1], e[1]) if _fits64(e[1], e[1]) else None
+    if k == "f":
+        return ranges.get(e[1])
+    if k in ("+", "-", "*", "max", "?:"):
+        args = e[2:] if k == "?:" else e[1:]
+        rs = [expr_range(a, ranges) for a in args]
+        if any(x is None for x in rs):
+            return None
+        if k == "?:":
+            if not _bool_ok(e[1], ranges):
+                return None
+            res = (min(rs[0][0], rs[1][0]), max(rs[0][1], rs[1][1]))
+        elif k == "max":
+            res = (max(x[0] for x in rs), max(x[1] for x in rs))
+        else:
+            (a, b), (c, d) = rs
+            if k == "+":
+                res = (a + c, b + d)
+            elif k == "-":
+                res = (a - d, b - c)
+            else:
+                ps = [a * c, a * d, b * c, b * d]
+                res = (min(ps), max(ps))
+        lo = min([res[0]] + [x[0] for x in rs])
+        hi = max([res[1]] + [x[1] for x in rs])
+        return res if _fits64(lo, hi) else None
+    return None
+
+
+def _bool_ok(e, ranges):
+    if e[0] in ("==", "!=", "<", "<=", ">", ">="):
+        rs = [expr_range(a, ranges) for a in e[1:]]
+        if any(x is None for x in rs):
+            return False
+        return _fits64(min(x[0] for x in rs), max(x[1] for x in rs))
+    return False
+
+
+EDGE_CONSTANTS = [0, 1, -1, 2, 10, 127, 128, 255, 256, 32767, 32768, 65535, (1 << 31) - 1, 1 << 31, (1 << 32) - 1,
+                  1 << 32, -(1 << 31), -(1 << 31) - 1, (1 << 63) - 1, -(1 << 63)]
+
+
+def _gen_arith(r, m, names):
+    """A struct of full-width integers (Int/UInt of 8..64 bits at fixed positions) and virtual
+    fields doing negation / subtraction / `$max` / products / sums on them, each kept inside the
+    64-bit rule by interval arithmetic — the arithmetic whose C++ carrier types (int32/uint32/
+    int64/uint64 per node) matter at the extreme field values."""
+    s = Struct("Ar%d" % (len(m.structs) + 1))
+    pos = 0
+    ranges = {}
+    for _ in range(r.randint(2, 4)):
+        w = r.choice([1, 2, 4, 4, 4, 8, 8, r.choice([3, 5, 6, 7])])
+        kind = r.choice(["int", "int", "uint"])
+        f = Field(names.fresh("w"), kind, start=("n", pos), size=("n", w), bits=8 * w)
+        if w > 1 and r.random() < 0.2:
+            f.byte_order = r.choice(["BigEndian", "LittleEndian"])
+        s.fields.append(f)
+        ranges[f.name] = (0, (1 << f.bits) - 1) if kind == "uint" else (-(1 << (f.bits - 1)), (1 << (f.bits - 1)) - 1)
+        m.features["arith_field_%s_%d" % (kind, f.bits)] += 1
+        pos += w
+    s.fixed_units = s.max_units = pos
+    phys = list(ranges)
+    made = 0
+    for _ in range(24):
+        if made >= 5:
+            break
+        x = ("f", r.choice(phys))
+        y = ("f", r.choice(phys))
+        kc = ("n", r.choice(EDGE_CONSTANTS))
+        shape = r.choice(["neg", "neg", "sub", "sub_k", "k_sub", "mul_m1", "mul_k", "max_neg", "max3", "abs", "add",
+                          "neg_neg", "sum_k"])
+        e = {"neg": ("-", ("n", 0), x), "sub": ("-", x, y), "sub_k": ("-", x, kc), "k_sub": ("-", kc, x),
+             "mul_m1": ("*", x, ("n", -1)), "mul_k": ("*", x, ("n", r.choice([2, 3, -2, 255, 65536]))),
+             "max_neg": ("max", x, ("-", ("n", 0), x)), "max3": ("max", x, y, kc),
+             "abs": ("?:", ("<", x, ("n", 0)), ("-", ("n", 0), x), x), "add": ("+", x, y),
+             "neg_neg": ("-", ("n", 0), ("-", ("n", 0), x)), "sum_k": ("+", x, kc)}[shape]
+        rg = expr_range(e, ranges)
+        if rg is None:
+            m.features["arith_candidate_outside_64_bit_rule"] += 1
+            continue
+        if rg[0] == rg[1]:
+            continue
+        v = Field(names.fresh("av"), "virtual", value=e, vtype="int")
+        s.fields.append(v)
+        m.features["arith_virtual_" + shape] += 1
+        if rg[1] >= (1 << 31) or rg[0] < -(1 << 31):
+            m.features["arith_virtual_needs_64_bit"] += 1
+        made += 1
+    _maybe_struct_default(r, m, s)
+    m.structs.append(s)
+    m.tops.append(s)
+    m.features["arith_struct"] += 1
     return s
 
 
@@ -596,6 +727,7 @@ def _gen_top(r, m, names, inners, bits_types):
         if c != ("t",):
             s.requires = c
             m.features["requires_struct"] += 1
+    _maybe_struct_default(r, m, s)
     m.structs.append(s)
     m.tops.append(s)
     return s
@@ -605,8 +737,8 @@ def _explicit_byte_orders(m, r):
     """Make a module valid without `$default byte_order`: every byte-order dependent field gets an
     explicit attribute; one-byte fields are left to the compiler ("Null" byte order)."""
     for s in m.structs:
-        if s.unit != 8:
-            continue
+        if s.unit != 8 or s.default_byte_order is not None:
+            continue    # a struct-level `$default byte_order` is enough for its own fields
         for f in s.fields:
             if f.virtual or f.byte_order:
                 continue
@@ -616,11 +748,55 @@ def _explicit_byte_orders(m, r):
             if multi and not f.anonymous:
                 f.byte_order = r.choice(["LittleEndian", "BigEndian"])
             elif multi:
-                # anonymous bits cannot carry the attribute in this generator: shrink to one byte
-                pass
+                # an anonymous `bits:` block cannot carry the attribute in this generator: the
+                # enclosing struct declares a `$default byte_order` of its own instead
+                s.default_byte_order = r.choice(["LittleEndian", "BigEndian"])
 
 
-def gen_module(r, default_byte_order=True):
+def _add_logic_probes(m):
+    """Three-valued logic probes: virtual boolean fields `late ∘ early` and `early ∘ late` for
+    ∘ ∈ {&&, ||} over two always-present small unsigned fields at *different* positions of a top
+    struct.  On a truncated buffer that holds `early` but not `late` one operand is unknown and the
+    other known, in both operand orders and with both deciding and non-deciding values — where the
+    documented rule ("even if the other argument cannot be computed", both ways round) shows.
+    Only virtual fields are appended (sizes, offsets and every other field are unchanged), and the
+    choices come from a generator seeded with the module's own text: no draw is taken from the
+    caller's stream, so the modules are otherwise identical with and without probes."""
+    import hashlib
+    import random
+    for s in m.tops:
+        if s.name.startswith("Ar"):
+            continue
+        cands = [f for f in s.fields if f.kind == "uint" and f.bits <= 16 and not f.virtual and f.cond is None
+                 and f.start[0] == "n"]
+        cands.sort(key=lambda f: f.start[1])
+        if len(cands) < 2 or cands[0].start[1] == cands[-1].start[1]:
+            continue
+        r2 = random.Random(hashlib.sha256((struct_text(s) + s.name).encode()).digest())
+        early, late = ("f", cands[0].name), ("f", cands[-1].name)
+
+        def cmp(ref):
+            return (r2.choice(["==", "!=", ">", "<="]), ref, ("n", r2.choice([0, 1, 1, 2])))
+        k = 0
+        for op in ("&&", "||"):
+            for a, b in ((late, early), (early, late)):
+                k += 1
+                s.fields.append(Field("lg%d_%s" % (k, s.name.lower()), "virtual", value=(op, cmp(a), cmp(b)),
+                                      vtype="bool"))
+                m.features["logic_probe_" + op] += 1
+    m.text = module_text(m)
+
+
+def gen_module(r, default_byte_order=True, logic_probes=False):
+    m = _gen_module(r, default_byte_order)
+    if logic_probes:
+        _add_logic_probes(m)
+        if not default_byte_order:
+            m.text = module_text(m).replace('[$default byte_order: "%s"]\n' % m.byte_order, "", 1)
+    return m
+
+
+def _gen_module(r, default_byte_order=True):
     m = GenModule()
     names = _Names()
     m.byte_order = r.choice(["LittleEndian", "BigEndian"])
@@ -632,6 +808,8 @@ def gen_module(r, default_byte_order=True):
     inners = [_gen_inner(r, m, names) for _ in range(r.choice([0, 1, 1, 2]))]
     for _ in range(r.choice([1, 1, 2])):
         _gen_top(r, m, names, inners, bits_types)
+    if r.random() < 0.7:
+        _gen_arith(r, m, names)
     # inner structs are worth instantiating directly too
     m.tops = [s for s in m.structs if s.unit == 8]
     m.text = module_text(m)
